@@ -482,6 +482,12 @@ class EIG(BaseRoutine):
             logger.error('No dynamic model. Eig analysis will not continue.')
             status = False
 
+        else:
+            # TDS has been initialized by the caller: evaluate the equations and
+            # the Jacobians at the present operating point
+            system.TDS.fg_update(system.exist.pflow_tds)
+            system.j_update(models=system.exist.pflow_tds)
+
         return status
 
     @check_conn_before_init
